@@ -87,6 +87,10 @@ def build_type_dict_from_type(t: Type, at_class: Optional[Type] = None) -> Dict[
     generic_type = get_origin(t)
     if generic_type is None:
         if at_class is not None:
+            # A plain class may still inherit from a parameterized one: class JVec(Vec[Jet])
+            inherited = get_inherited(t) if t is not at_class else Any
+            if inherited is not Any:
+                return build_type_dict_from_type(inherited, at_class)
             raise TypeError(f"Could not find type {str(at_class)} in {str(t)}")
         return {}
 
